@@ -4,14 +4,11 @@
 From Coq Require Import Reals Lra ZArith.
 From Coquelicot Require Import Coquelicot.
 From Interval Require Import Tactic.
+From Adept Require Export RealOps.
 From Adept Require Import Scalar ExprDefs Expr.
 From AdeptGen Require Import Gen_Ops.
 Local Open Scope R_scope.
 
-Definition Rltb (x y : R) : bool := if Rlt_dec x y then true else false.
-Definition Rleb (x y : R) : bool := if Rle_dec x y then true else false.
-Definition Reqb (x y : R) : bool := if Req_EM_T x y then true else false.
-Definition RO : Ops R := mkOps R 0 1 Rplus Rminus Rmult Rdiv Ropp Reqb Rltb Rleb.
 Definition Rf1 (f : fname) (x : R) : R :=
   match f with
   | F_log => ln x | F_log10 => ln x / ln 10 | F_log2 => ln x / ln 2 | F_log1p => ln (1 + x)
